@@ -153,6 +153,88 @@ pub fn eseq(exp: &str, dir: &str, api: &str, hexkey: &str, msgs: &str) -> String
     }
 }
 
+/// `eseqf <exp> <dir> <key40hex> <hexframe,hexframe,...>`: ANY messages.  Each plain frame is read with the plain opcode reader, the
+/// value is written with the encrypted writer (which dispatches to the message's own, possibly overridden, writer) and with the plain
+/// writer; the cipher stream is then read with the decrypting reader and every message re-written plain.
+/// Reply: `ok hdronly=<0|1> plain=<len,len,..> <bodylen>[!]@<pos> ... end=<cipher len>` (`!` = decrypted message differs from the plain one).
+macro_rules! run_frames {
+    ($exp:ident, $opc:ident, $wenc:ident, $wplain:ident, $opsize:expr, $frames:expr, $enc:expr, $dec:expr) => {{
+        use wow_world_messages::$exp as e;
+        let mut cipher = Vec::new();
+        let mut plain = Vec::new();
+        let mut chunks: Vec<(usize, usize, usize)> = Vec::new();     // (start, header end, end) in the plain stream
+        let mut werr = None;
+        for (i, f) in $frames.iter().enumerate() {
+            let m = match e::opcodes::$opc::read_unencrypted(&mut Cursor::new(f.as_slice())) {
+                Ok(m) => m,
+                Err(x) => { werr = Some(format!("unreadable {i} {}", errk!(x))); break; }
+            };
+            let start = plain.len();
+            // the plain writer first: a message its own plain writer refuses (size assertion) is not this property's subject
+            let mut pl = Vec::new();
+            match std::panic::catch_unwind(std::panic::AssertUnwindSafe(|| m.$wplain(&mut pl))) {
+                Ok(Ok(())) => {}
+                Ok(Err(x)) => { werr = Some(format!("plain-write-failed {i} {x}")); break; }
+                Err(_) => { werr = Some(format!("plain-write-panic {i}")); break; }
+            }
+            plain.extend_from_slice(&pl);
+            match std::panic::catch_unwind(std::panic::AssertUnwindSafe(|| m.$wenc(&mut cipher, $enc))) {
+                Ok(Ok(())) => {}
+                Ok(Err(x)) => { werr = Some(format!("write-failed {i} {x}")); break; }
+                Err(_) => { werr = Some(format!("encrypted-write-panic {i}")); break; }
+            }
+            let ch = &plain[start..];
+            // the plain header announces the size of opcode + body
+            let (szlen, size) = if ch.len() >= 3 && stringify!($exp) == "wrath" && $opsize == 2 && ch[0] & 0x80 != 0 {
+                (3, (((ch[0] & 0x7F) as usize) << 16) | ((ch[1] as usize) << 8) | ch[2] as usize)
+            } else if ch.len() >= 2 { (2, ((ch[0] as usize) << 8) | ch[1] as usize) } else { (0, 0) };
+            let hdr = szlen + $opsize;
+            if size + szlen != ch.len() { werr = Some(format!("plain-size-field {i} announces {size} chunk {}", ch.len())); break; }
+            chunks.push((start, start + hdr, plain.len()));
+        }
+        match werr {
+            Some(w) => w,
+            None => {
+                let mut hdronly = cipher.len() == plain.len();
+                if hdronly {
+                    for (i, (a, b)) in cipher.iter().zip(plain.iter()).enumerate() {
+                        if a != b && !chunks.iter().any(|(s, h, _)| i >= *s && i < *h) { hdronly = false; break; }
+                    }
+                }
+                let mut out = format!("ok hdronly={} plain={}", hdronly as u8, chunks.iter().map(|(s, _, e)| (e - s).to_string()).collect::<Vec<_>>().join(","));
+                let mut cur = Cursor::new(cipher.as_slice());
+                let mut failed = None;
+                for (i, (s, h, en)) in chunks.iter().enumerate() {
+                    match e::opcodes::$opc::read_encrypted(&mut cur, $dec) {
+                        Ok(m2) => {
+                            let mut w2 = Vec::new();
+                            let good = m2.$wplain(&mut w2).is_ok() && w2.as_slice() == &plain[*s..*en];
+                            out.push_str(&format!(" {}{}@{}", en - h, if good { "" } else { "!" }, cur.position()));
+                        }
+                        Err(x) => { failed = Some(format!("{out} then {} at {} (message {i})", errk!(x), cur.position())); break; }
+                    }
+                }
+                match failed { Some(f) => f, None => { out.push_str(&format!(" end={}", cipher.len())); out } }
+            }
+        }
+    }};
+}
+
+pub fn eseqf(exp: &str, dir: &str, hexkey: &str, frames: &str) -> String {
+    let Some(k) = key(hexkey) else { return "bad-op".into() };
+    let mut fs = Vec::new();
+    for h in frames.split(',') { match crate::unhex(h) { Some(b) => fs.push(b), None => return "bad-op".into() } }
+    match (exp, dir) {
+        ("vanilla", "server") => { let (client, server) = vt_pair!(vanilla_header, k); let (_ce, mut cd) = client.split(); let (mut se, _sd) = server.split(); run_frames!(vanilla, ServerOpcodeMessage, write_encrypted_server, write_unencrypted_server, 2, fs, &mut se, &mut cd) }
+        ("vanilla", "client") => { let (client, server) = vt_pair!(vanilla_header, k); let (mut ce, _cd) = client.split(); let (_se, mut sd) = server.split(); run_frames!(vanilla, ClientOpcodeMessage, write_encrypted_client, write_unencrypted_client, 4, fs, &mut ce, &mut sd) }
+        ("tbc", "server") => { let (client, server) = vt_pair!(tbc_header, k); let (_ce, mut cd) = client.split(); let (mut se, _sd) = server.split(); run_frames!(tbc, ServerOpcodeMessage, write_encrypted_server, write_unencrypted_server, 2, fs, &mut se, &mut cd) }
+        ("tbc", "client") => { let (client, server) = vt_pair!(tbc_header, k); let (mut ce, _cd) = client.split(); let (_se, mut sd) = server.split(); run_frames!(tbc, ClientOpcodeMessage, write_encrypted_client, write_unencrypted_client, 4, fs, &mut ce, &mut sd) }
+        ("wrath", "server") => { let (client, server) = vt_pair!(wrath_header, k); let (_ce, mut cd) = client.split(); let (mut se, _sd) = server.split(); run_frames!(wrath, ServerOpcodeMessage, write_encrypted_server, write_unencrypted_server, 2, fs, &mut se, &mut cd) }
+        ("wrath", "client") => { let (client, server) = vt_pair!(wrath_header, k); let (mut ce, _cd) = client.split(); let (_se, mut sd) = server.split(); run_frames!(wrath, ClientOpcodeMessage, write_encrypted_client, write_unencrypted_client, 4, fs, &mut ce, &mut sd) }
+        _ => "bad-op".into(),
+    }
+}
+
 /// `cipherlaw <exp> <key40hex> <hexbytes>`: the assumption behind C05 — decrypting (peer half) what was encrypted returns
 /// the bytes, for both directions, byte by byte and in chunks.
 pub fn cipherlaw(exp: &str, hexkey: &str, hexdata: &str) -> String {
